@@ -267,6 +267,14 @@ func TestC15(t *testing.T) {
 			return v
 		})
 	}
+	rec.Regress(t, func(raw json.RawMessage) *Violation {
+		var c c15Case
+		if json.Unmarshal(raw, &c) != nil {
+			return nil
+		}
+		v, _ := runC15(c)
+		return v
+	})
 	t.Run("grid", func(t *testing.T) {
 		sh, nsh := shard()
 		k := 0
